@@ -174,6 +174,25 @@ func c17Hi(e int) int { return int(math.Floor(1.05*float64(e) + 1e-6)) }
 
 var errC17Fetch = errors.New("c17 fetch failed")
 
+// c17Nil in a scenario stands for the nil value (Set(k, nil), a fetch returning (nil, nil)):
+// a key holding nil is present like any other.
+const c17Nil = -999
+
+func c17Val(v int) any {
+	if v == c17Nil {
+		return nil
+	}
+	return v
+}
+
+func c17Same(got any, v int) bool {
+	if v == c17Nil {
+		return got == nil
+	}
+	i, ok := got.(int)
+	return ok && i == v
+}
+
 func runC17(m *vk.M, idx int, sc c17Scenario) (events map[string]int, ok bool) {
 	events = map[string]int{}
 	desc := func() string { return fmt.Sprintf("case=%d;%s", idx, vk.JSON(sc)) }
@@ -207,10 +226,10 @@ func runC17(m *vk.M, idx int, sc c17Scenario) (events map[string]int, ok bool) {
 		case "set", "setx":
 			e := sc.Expire
 			if op.Op == "set" {
-				env.c.Set(op.K, op.V)
+				env.c.Set(op.K, c17Val(op.V))
 			} else {
 				e = op.E
-				env.c.SetWithExpire(op.K, op.V, time.Duration(op.E)*time.Second)
+				env.c.SetWithExpire(op.K, c17Val(op.V), time.Duration(op.E)*time.Second)
 			}
 			if ev := mod.set(op.K, op.V, env.tick, e); ev != "" {
 				events["evictions"]++
@@ -224,7 +243,7 @@ func runC17(m *vk.M, idx int, sc c17Scenario) (events map[string]int, ok bool) {
 				m.Violate("C17:get-returned-dropped-key", desc(), "step %d: Get(%q) returned %v but the key was deleted, evicted or expired", step, op.K, got)
 			case !found && want:
 				m.Violate("C17:get-missing", desc(), "step %d: Get(%q) found nothing; set at tick %d (expiry %ds), now tick %d", step, op.K, ent.setTick, ent.e, env.tick)
-			case found && got.(int) != ent.v:
+			case found && !c17Same(got, ent.v):
 				m.Violate("C17:get-stale-value", desc(), "step %d: Get(%q)=%v, most recent Set value %d", step, op.K, got, ent.v)
 			}
 			if want {
@@ -237,6 +256,29 @@ func runC17(m *vk.M, idx int, sc c17Scenario) (events map[string]int, ok bool) {
 			env.c.Del(op.K)
 			mod.drop(op.K)
 			sameKeys(step, op)
+		case "takepanic":
+			// a fetch that panics (recovered by the caller) must leave nothing behind: not cached, and the
+			// next Take of the key fetches again
+			calls := 0
+			_, cached := mod.ents[op.K]
+			vk.Recover(func() {
+				_, _ = env.c.Take(op.K, func() (any, error) {
+					calls++
+					panic("c17: hostile fetch")
+				})
+			})
+			switch {
+			case cached && calls != 0:
+				m.Violate("C17:take-fetched-when-cached", desc(), "step %d: Take(%q) ran fetch although the key is cached", step, op.K)
+			case !cached && calls != 1:
+				m.Violate("C17:take-fetch-count", desc(), "step %d: Take(%q) on an absent key ran fetch %d times", step, op.K, calls)
+			}
+			if cached {
+				mod.touch(op.K)
+			} else {
+				events["take_panics"]++
+			}
+			sameKeys(step, op)
 		case "take", "takeerr":
 			calls := 0
 			got, err := env.c.Take(op.K, func() (any, error) {
@@ -244,17 +286,17 @@ func runC17(m *vk.M, idx int, sc c17Scenario) (events map[string]int, ok bool) {
 				if op.Op == "takeerr" {
 					return nil, errC17Fetch
 				}
-				return op.V, nil
+				return c17Val(op.V), nil
 			})
 			ent, cached := mod.ents[op.K]
 			switch {
 			case cached && calls != 0:
 				m.Violate("C17:take-fetched-when-cached", desc(), "step %d: Take(%q) ran fetch although the key is cached", step, op.K)
-			case cached && (err != nil || got.(int) != ent.v):
+			case cached && (err != nil || !c17Same(got, ent.v)):
 				m.Violate("C17:take-wrong-cached-value", desc(), "step %d: Take(%q)=(%v,%v), cached %d", step, op.K, got, err, ent.v)
 			case !cached && calls != 1:
 				m.Violate("C17:take-fetch-count", desc(), "step %d: Take(%q) on an absent key ran fetch %d times", step, op.K, calls)
-			case !cached && op.Op == "take" && (err != nil || got.(int) != op.V):
+			case !cached && op.Op == "take" && (err != nil || !c17Same(got, op.V)):
 				m.Violate("C17:take-wrong-result", desc(), "step %d: Take(%q)=(%v,%v), fetch returned %d", step, op.K, got, err, op.V)
 			case !cached && op.Op == "takeerr" && err != errC17Fetch:
 				m.Violate("C17:take-error-not-returned", desc(), "step %d: Take(%q) err=%v, fetch failed with %v", step, op.K, err, errC17Fetch)
@@ -323,19 +365,25 @@ func c17Gen(r interface{ Intn(int) int }) c17Scenario {
 		k := fmt.Sprintf("k%d", r.Intn(nkeys))
 		x := r.Intn(100)
 		val++
+		v := val
+		if r.Intn(12) == 0 {
+			v = c17Nil // the nil value is a value like any other
+		}
 		switch {
 		case x < 22:
-			sc.Ops = append(sc.Ops, c17Op{Op: "set", K: k, V: val})
+			sc.Ops = append(sc.Ops, c17Op{Op: "set", K: k, V: v})
 		case x < 32:
-			sc.Ops = append(sc.Ops, c17Op{Op: "setx", K: k, V: val, E: expires[r.Intn(len(expires))]})
+			sc.Ops = append(sc.Ops, c17Op{Op: "setx", K: k, V: v, E: expires[r.Intn(len(expires))]})
 		case x < 52:
 			sc.Ops = append(sc.Ops, c17Op{Op: "get", K: k})
 		case x < 60:
 			sc.Ops = append(sc.Ops, c17Op{Op: "del", K: k})
 		case x < 70:
-			sc.Ops = append(sc.Ops, c17Op{Op: "take", K: k, V: val})
-		case x < 75:
+			sc.Ops = append(sc.Ops, c17Op{Op: "take", K: k, V: v})
+		case x < 73:
 			sc.Ops = append(sc.Ops, c17Op{Op: "takeerr", K: k})
+		case x < 75:
+			sc.Ops = append(sc.Ops, c17Op{Op: "takepanic", K: k})
 		default:
 			nt := tickChoices[r.Intn(len(tickChoices))]
 			if sc.Expire <= 20 && nt > 30 && r.Intn(3) > 0 {
